@@ -18,7 +18,7 @@ import (
 
 // C18 — options act only on their own aspect, in any order, on every Evaluate.
 
-const c18Rule = "option lists over {WithTagName(bexpr|alt), WithHookFn(identity|unwrap|nil), WithUnknownValue(v), WithMaxExpressions(0|>=N|small)} with repeats, nil options " +
+const c18Rule = "option lists over {WithTagName(bexpr|alt), WithHookFn(identity|unwrap|constant|nil), WithUnknownValue(v), WithMaxExpressions(0|>=N|small)} with repeats, nil options " +
 	"and all permutations; structs tagged under both tag names, map values wrapped in the hook's wrapper struct; several Evaluate calls per evaluator; oracles: " +
 	"permutations agree, last of repeated options wins, neutral settings equal their absence, the unwrap hook makes wrapped documents behave as unwrapped ones and agrees " +
 	"with the reference interpreter applying the hook after every step, later calls equal the first; non-trivial = >= 2 distinct non-neutral options whose aspect the " +
@@ -43,6 +43,8 @@ func (s optSpec) option() bexpr.Option {
 			return bexpr.WithHookFn(identityHook)
 		case ref.HookUnwrap:
 			return bexpr.WithHookFn(unwrapHook)
+		case ref.HookConst:
+			return bexpr.WithHookFn(constHook)
 		}
 		return bexpr.WithHookFn(nil)
 	case "unknown":
@@ -311,7 +313,7 @@ func TestC18_Options(t *testing.T) {
 			case 0, 1:
 				specs = append(specs, optSpec{Kind: "tag", Tag: []string{uni.AltTag, "bexpr", uni.AltTag}[rapid.IntRange(0, 2).Draw(t, "tag")]})
 			case 2, 3:
-				specs = append(specs, optSpec{Kind: "hook", Hook: []int{2, 0, 1, 2}[rapid.IntRange(0, 3).Draw(t, "hook")]})
+				specs = append(specs, optSpec{Kind: "hook", Hook: []int{2, 0, 1, 2, 3}[rapid.IntRange(0, 4).Draw(t, "hook")]})
 			case 4, 5:
 				k := uni.ScalarKinds[rapid.IntRange(0, len(uni.ScalarKinds)-1).Draw(t, "uk")]
 				specs = append(specs, optSpec{Kind: "unknown", Unknown: uni.GenScalar(t, &uni.Type{K: k}, uni.Profile{})})
@@ -348,7 +350,7 @@ func TestC18_Options(t *testing.T) {
 		if eff.Tag != "" {
 			nonNeutral++
 		}
-		if eff.Hook == int(ref.HookUnwrap) && c.Unwrapped != nil {
+		if (eff.Hook == int(ref.HookUnwrap) && c.Unwrapped != nil) || eff.Hook == int(ref.HookConst) {
 			nonNeutral++
 		}
 		if eff.HasUnknown {
